@@ -94,6 +94,7 @@ def expand_source_blocks(
                 # This makes the node artificially "expanded". Also, there
                 # can be no attractors here because we are just fixing the source nodes.
                 sd.node_data(node)["expanded"] = True
+                sd.node_data(node)["attractor_candidates"] = None
                 sd.node_data(node)["attractor_seeds"] = []
                 sd.node_data(node)["attractor_sets"] = []
 
